@@ -135,6 +135,8 @@ type w3World struct {
 	rng         *rand.Rand // seeded: random signer subsets
 	nRandom     int
 	thin        bool // quick tier: the repeat and cross-replay passes skip the peer sets
+	crafted     []*w3Princ // m-of-n accounts over the right keys with a wrong m
+	light       bool       // this chain runs the base sweep only
 	snapLast    w3Snap
 	snapHeight  uint32
 	snapOK      bool
@@ -198,6 +200,25 @@ func w3NewChain(t testing.TB, n int) *w3World {
 	w.addPrinc(w3Multi("ir-alpha", w3AlphaM(nl), w.rk))
 	w.addPrinc(w3Multi("neofs-alpha", w3AlphaM(nl), w.lk))
 	w.addPrinc(w3Multi("neofs-majority", w3MajM(nl), w.lk))
+	// multi-signature accounts over the RIGHT key lists with the WRONG
+	// threshold: one below / one above the two real ones, and all keys
+	for _, kl := range []struct {
+		tag string
+		ks  []*wallet.Account
+	}{{"committee", w.ck}, {"ir", w.rk}, {"neofs-list", w.lk}} {
+		nk := len(kl.ks)
+		real := map[int]bool{w3AlphaM(nk): true, w3MajM(nk): true}
+		seen := map[int]bool{}
+		for _, m := range []int{w3MajM(nk) - 1, w3MajM(nk) + 1, w3AlphaM(nk) - 1, w3AlphaM(nk) + 1, nk} {
+			if m < 1 || m > nk || real[m] || seen[m] {
+				continue
+			}
+			seen[m] = true
+			p := w3Multi(fmt.Sprintf("%s-%d-of-%d", kl.tag, m, nk), m, kl.ks)
+			w.addPrinc(p)
+			w.crafted = append(w.crafted, p)
+		}
+	}
 	w.addPrinc(w3Single("member0", w.ck[0]))
 	if n > 1 {
 		w.addPrinc(w3Single("member1", w.ck[1]))
@@ -430,6 +451,8 @@ func (w *w3World) setup() {
 	w.deploy("neofs_nd", w.C["neofs"], w.princ("deployer2"), []any{true, procHash, w3Pubs(w.lk), cfg})
 	w.deploy("processing", w.C["processing"], cm, []any{w.H["neofs"]})
 	require.Equal(t, procHash, w.H["processing"])
+
+	w.deploy("caller", w.CompileHelper("caller"), cm, nil)
 
 	// designate the NeoFSAlphabet role (Inner Ring)
 	w.must(w.send(w.god(), w.roles, "designateAsRole", int64(noderoles.NeoFSAlphabet), w3Pubs(w.rk)), "designate")
@@ -808,6 +831,9 @@ func (w *w3World) signerSets(call *w3Call, rng *rand.Rand, nRandom int) []w3SigS
 	add("neofs-list-majority", w.princ("neofs-majority"))
 	add("ir-member", w.princ("ir-member"))
 	add("neofs-list-member", w.princ("neofs-member"))
+	for _, p := range w.crafted {
+		add("wrong-threshold:"+p.Name, p)
+	}
 	// another member of the same list alone, and all members but the first
 	rest := func(prefix string, from, n int) []*w3Princ {
 		var ps []*w3Princ
@@ -1071,6 +1097,11 @@ func (w *w3World) runCall(o *w3Out, v *w3Variant, call *w3Call, set w3SigSet, re
 	switch call.Via {
 	case "":
 		r = w.sendU(ps, set.Unscoped, h, v.M, call.Args...)
+	case "contract":
+		// through the forwarding helper contract: it is the calling script hash
+		fh := w.H["caller"]
+		caller = &fh
+		r = w.sendU(ps, set.Unscoped, fh, "call", h, v.M, call.Args)
 	case "gas", "neo":
 		tok := w.gas
 		if call.Via == "neo" {
@@ -1251,7 +1282,10 @@ func (w *w3World) runSets(o *w3Out, v *w3Variant, req *w3Req, next func() *w3Cal
 		var hs []util.Uint160
 		ps := s.Ps
 		var caller *util.Uint160
-		if probe.Via != "" {
+		if probe.Via == "contract" {
+			fh := w.H["caller"]
+			caller = &fh
+		} else if probe.Via != "" {
 			ps = w3Dedup(append([]*w3Princ{probe.ViaFrom}, ps...))
 			tok := w.gas
 			if probe.Via == "neo" {
@@ -1272,9 +1306,10 @@ func (w *w3World) runSets(o *w3Out, v *w3Variant, req *w3Req, next func() *w3Cal
 		for _, it := range items {
 			n := it.s.Name
 			wanted := n == "nobody" || n == "stranger" || n == "committee-majority" || n == "alphabet" ||
+				strings.HasPrefix(n, "wrong-threshold:committee") ||
 				(strings.HasPrefix(n, "named:") && !strings.Contains(n, "+") && n != "named:all")
 			switch {
-			case !it.met && wanted && unmet < 6:
+			case !it.met && wanted && unmet < 9:
 				unmet++
 				kept = append(kept, it)
 			case it.met && met < 1:
@@ -1284,7 +1319,7 @@ func (w *w3World) runSets(o *w3Out, v *w3Variant, req *w3Req, next func() *w3Cal
 		}
 		items = kept
 	}
-	if probe.Via != "" {
+	if probe.Via == "gas" || probe.Via == "neo" {
 		// a token transfer to the contract: the interesting witness is the sender's
 		items = []item{{w3SigSet{Name: "token-holder"}, true}}
 	}
@@ -1376,12 +1411,18 @@ func (w *w3World) sweep(o *w3Out, table map[string]*w3Req, variants []*w3Variant
 		if ok == nil || ok.Via != "" || req == nil {
 			continue
 		}
+		if w.light {
+			continue
+		}
 		// the same call once more, now that its target exists / it is a repeat
 		oks = append(oks, w3OKCall{v, ok})
 		rv := *v
 		rv.Label = strings.TrimSpace(v.Label + " [identical arguments again, after the call succeeded]")
 		rv.Repeat = true
 		w.runSets(o, &rv, req, func() *w3Call { return ok.again(w) })
+	}
+	if w.light {
+		return
 	}
 	w.crossReplay(o, table, oks)
 	w.boundaryPass(o, table, variants)
@@ -1435,7 +1476,7 @@ func w3Mutations(m *manifest.Method, args []any, i int) []w3Mutation {
 func (w *w3World) boundaryPass(o *w3Out, table map[string]*w3Req, variants []*w3Variant) {
 	seq := 1 << 20
 	for _, v := range variants {
-		if v.Repeat || strings.HasPrefix(v.M, "_") || v.M == "update" {
+		if v.Repeat || v.Boundary || strings.HasPrefix(v.M, "_") || v.M == "update" {
 			continue
 		}
 		req := table[w3MKey(v.C, v.M, v.Arity)]
@@ -1700,7 +1741,8 @@ func (o *w3Out) write(w *w3World, path string, nonsafe []string, agree []string,
 func TestC03(t *testing.T) {
 	t0 := time.Now()
 	st := NewStats("C03")
-	sizes := []int{1, 3}
+	// quick: 1 and 3 in full, plus an even committee (4) with the base sweep only
+	sizes := []int{1, 3, 4}
 	if Tier() == "thorough" {
 		sizes = []int{1, 2, 3, 4, 5, 7}
 	}
@@ -1717,6 +1759,7 @@ func TestC03(t *testing.T) {
 		w.rng = Rng(int64(3000 + n))
 		w.nRandom = 3
 		w.thin = true
+		w.light = Tier() != "thorough" && n == 4
 		if Tier() == "thorough" {
 			w.nRandom = 10
 			w.thin = false
